@@ -88,6 +88,12 @@ func elem(shape string, j int, c *ctr) jl.Node {
 		return jl.Int(int64(50 + j))
 	case "str":
 		return jl.Str("t" + strconv.Itoa(j))
+	case "alike": // member tags: values of different kinds that print alike, in both orders
+		tags := [][]jl.Node{
+			{jl.Int(1), jl.Str("1")}, {jl.Str("1"), jl.Int(1)}, {jl.Bool(true), jl.Str("true")}, {jl.Str("true"), jl.Bool(true)},
+			{jl.Null(), jl.Str("<nil>")}, {jl.Str("<nil>"), jl.Null()}, {jl.Int(2), jl.Str("x"), jl.Str("2")}, {},
+		}
+		return jl.Obj("tags", jl.Arr(tags[j%len(tags)]...), "b", c.next())
 	case "num": // member a: an int, a fractional float, a negative float, a string, null, absent (mixed int / float ordering)
 		switch j % 7 {
 		case 0:
@@ -397,6 +403,39 @@ func matrix(args []string) {
 				d := rowsDoc(oc)
 				emit(4, append([]jl.Frag{jl.FRoot(), jl.FChild("rows"), mf, jl.FDesc()}, tail...), d) // fragment under test: the descent
 				emit(3, append([]jl.Frag{jl.FRoot(), mf, jl.FDesc()}, tail...), jl.Norm(d["o"].([]jl.Node)[1]))
+			}
+		}
+	}
+	// a multi-valued `@` operand whose values are look-alikes of different kinds (1 / "1", true / "true", null / "<nil>") in both orders,
+	// against a constant of each kind
+	for _, fr := range []jl.Frag{jl.FWild(), jl.FSlice(0, A, A), jl.FUnion(0, 1), jl.FUnion(1, 0)} {
+		for _, cst := range []jl.Node{jl.Int(1), jl.Str("1"), jl.Bool(true), jl.Str("true"), jl.Null(), jl.Str("<nil>"), jl.Str("2")} {
+			for _, cmp := range []string{"eq", "ne"} {
+				for _, sw := range []bool{false, true} {
+					if cmp == "ne" && sw {
+						continue
+					}
+					f := jl.FFilterMC("tags", fr, cmp, sw, cst)
+					for _, ct := range []cont{{"arr", 8}, {"obj", 4}} {
+						c := &ctr{n: 100}
+						d := mkCont(ct, "alike", c)
+						emit(2, []jl.Frag{jl.FRoot(), f}, d)
+						emit(2, []jl.Frag{jl.FRoot(), f, jl.FChild("b")}, d)
+					}
+				}
+			}
+		}
+	}
+	// the same look-alikes in a multi-valued `$`-rooted operand (class mr), both orders
+	for _, rk := range [][]jl.Node{{jl.Int(1), jl.Str("1")}, {jl.Str("1"), jl.Int(1)}, {jl.Bool(true), jl.Str("true")}, {jl.Str("true"), jl.Bool(true)}, {jl.Null(), jl.Str("<nil>")}, {jl.Str("<nil>"), jl.Null()}} {
+		for _, rf := range []jl.Frag{jl.FWild(), jl.FSlice(0, A, A)} {
+			for _, sw := range []bool{false, true} {
+				c := &ctr{n: 100}
+				els := jl.Arr(jl.Obj("a", jl.Int(1), "b", c.next()), jl.Obj("a", jl.Str("1"), "b", c.next()), jl.Obj("a", jl.Bool(true), "b", c.next()),
+					jl.Obj("a", jl.Str("true"), "b", c.next()), jl.Obj("a", jl.Null(), "b", c.next()), jl.Obj("a", jl.Str("<nil>"), "b", c.next()))
+				root := jl.Obj("p", els, "rk", jl.Arr(rk...))
+				emit(3, []jl.Frag{jl.FRoot(), jl.FChild("p"), jl.FFilterMR("a", "eq", sw, "rk", rf)}, root)
+				emit(3, []jl.Frag{jl.FRoot(), jl.FChild("p"), jl.FFilterMR("a", "eq", sw, "rk", rf), jl.FChild("b")}, root)
 			}
 		}
 	}
